@@ -20,6 +20,10 @@ RULE = (
     "and checked for conformance; inputs the model rejects must not reach the resolver; each valid "
     "value is sent inline and through a variable and the two deliveries compared; the same cases go "
     "directly to coerce_value, value_from_ast, coerce_argument_values and coerce_variable_values. "
+    ""
+    "Whole operations against schemas whose interface implementations declare their own argument "
+    "defaults / python names are executed too and the multiset of resolver invocations (type, "
+    "field, keyword arguments) is compared with the reference executor's.  "
     "Non-trivial = distinct case whose type has a wrapper, enum or input object, or whose value is a "
     "boundary, null or mutated one."
 )
